@@ -152,13 +152,18 @@ func genC16(e *emitter, tier string, seed int64) {
 		{"lib.p", "add_key(fromlib, len(message))\nfor i = 0; i < 3; i = i + 1 {\n  add_key(cnt, i)\n}\n"},
 		{"misc.p", "m = {\"a\": [1, 2, 3]}\nfor x in m[\"a\"] {\n  add_key(last, x)\n}\nrename(mm, message)\nset_tag(tg, \"t\")\ncast(f1, \"str\")\nl = [3, 2, 1]\np(l[::-1], \"é\"[0:1])\ndefault_time(ts)\nreplace(url, \"[0-9]+\", \"N\")\n"},
 		{"err.p", "z = 0\nadd_key(before, 1)\nx = 1 / z\n"},
+		// engines with internal state (the SQL obfuscator adapts to what it has seen): every run as if alone
+		{"sql.p", "sql_cover(message)\np(get_key(message))\nurl_decode(url)\n"},
 	}
-	entries := []string{"grok.p", "use.p", "lib.p", "misc.p", "err.p"}
+	entries := []string{"grok.p", "use.p", "lib.p", "misc.p", "err.p", "sql.p", "sql.p"}
 	parseSrcs := []string{"a = 1\nif a {\n  b = [1, 2]\n}\n", "x = \"str\" # c\nfor i = 0; i < 3; i = i + 1 {\n}\n", "broken ( [", "'''multi\nline'''\n", "f(a = 1, 2 +)", "use(\"q.p\")\n"}
 	points := []pointSpec{
 		{Meas: "m", Time: 1600000000000000000, Fields: []fieldSpec{{"message", "str", "hello 42"}, {"f1", "int", "7"}, {"ts", "str", "2021-03-15T00:08:10Z"}, {"url", "str", "/a/123/b/45"}}, Tags: [][2]string{{"t1", "tv"}}},
 		{Meas: "o", Time: 5, Fields: []fieldSpec{{"message", "str", "x"}, {"f1", "float", "4609434218613702656"}}},
 		{Meas: "o", Time: 5, Fields: []fieldSpec{{"message", "str", "abc 7"}, {"ts", "str", "junk"}}},
+		{Meas: "q", Time: 6, Fields: []fieldSpec{{"message", "str", "select * from t where a = 'C:\\' AND b = 'z'"}}},
+		{Meas: "q", Time: 7, Fields: []fieldSpec{{"message", "str", "select * from t where a = 'x\\' OR b = ' OR 1=1 -- \\' "}}},
+		{Meas: "q", Time: 8, Fields: []fieldSpec{{"message", "str", "select * from t where n = 'it\\'s'"}}},
 	}
 	rounds := 40
 	if tier == "thorough" {
